@@ -159,7 +159,10 @@ class CollectionAttrMutator(metaclass=ABCMeta):
             self.collection = self._create_collection()
             self.add_items(items)
             return self
-        if self.collection and self.prepare_item:
+        if self.collection and self.attr_spec.prepare_item:
+            # Items are prepared in place, so work on a copy of the incoming
+            # collection rather than editing the caller's object.
+            self.collection = protect_via_deepcopy(self.collection)
             self._prepare_items()
         return self
 
